@@ -72,7 +72,8 @@ def PState.setPending (s : PState) (id : Nat) (l : List Entry) : PState :=
   { s with pending := s.pending.map fun (i, p) => if i == id then (i, l) else (i, p) }
 
 /-- Kinds that cannot take children from an augment (after the repair). -/
-def cannotHaveChildren (e : Entry) : Bool := !e.d.hasDir || e.d.kind == .anydata || e.d.kind == .anyxml
+def cannotHaveChildren (e : Entry) : Bool :=
+  !e.d.hasDir || e.d.kind == .anydata || e.d.kind == .anyxml || e.d.isRpc
 
 /-- Go: `ToEntry(m).Augment(addErrors)` for the tree `id`: returns processed and skipped counts. -/
 def augmentTree (reg : Registry) (id : Nat) (addErrors : Bool) (s : PState) : PState × Nat × Nat :=
